@@ -1,14 +1,14 @@
 /*@harness
 {"tier":"quick","mode":"bounded(approved path names of at most 12 characters, every content; the two path buffers scaled down to 8 bytes by prelude)","tus":["lib/efuns/file_utils.c"],"dfcc":false,
- "functions":["do_rename","copy_file"],
- "stub_out":["check_valid_path","file_utils.c:do_move","file_size"],
+ "functions":["do_rename","copy_file","get_dir"],
+ "stub_out":["check_valid_path","file_utils.c:do_move","file_size","file_utils.c:encode_stat","file_utils.c:match_string"],
  "flags":["--bounds-check","--pointer-check"],"unwind":16,"timeout":900,
- "expect":["h_path_buffers.assertion","sprintf_like.assertion","do_rename.pointer_dereference"],
+ "expect":["h_path_buffers.assertion","sprintf_like.assertion","do_rename.pointer_dereference","get_dir.pointer_dereference"],
  "native":null,
  "assumptions":["MAX_FNAME_SIZE / MAX_PATH_LEN (255 / 1024) are redefined to 2 / 4 for this run: the local path buffers newfrom[] / newto[] then hold 8 bytes and the harness names (up to 12 characters) play the role of names longer than 1281 bytes",
                 "check_valid_path is a stub returning approved strings of any content and length up to 12 (path length is not limited by the driver: any LPC string can be a path)",
-                "sprintf / snprintf are models that require the destination to hold what the conversion writes (snprintf: at most its size argument) and return the untruncated length; open/stat/read/close/do_move/file_size are inert stubs"],
- "notes":"C01 memory safety of rename() and cp(): the fixed-size local path buffers are never written past their end, whatever the lengths of the approved names"}
+                "sprintf / snprintf are models that require the destination to hold what the conversion writes (snprintf: at most its size argument) and return the untruncated length; open/stat/read/close/do_move/file_size are inert stubs; opendir/readdir model a directory with one entry whose name is at most MAX_FNAME_SIZE (= NAME_MAX) characters long"],
+ "notes":"C01 memory safety of rename(), cp() and get_dir(): the fixed-size local path buffers are never written past their end, whatever the lengths of the approved names"}
 @*/
 /*@prelude file=lib/efuns/file_utils.c after="^#define MAX_PATH_LEN"
 #undef MAX_FNAME_SIZE
@@ -20,6 +20,8 @@
 #include <stdarg.h>
 #include <sys/stat.h>
 #include <fcntl.h>
+#include <dirent.h>
+#include "lpc/array.h"
 object_t *current_object; static object_t G_me; svalue_t apply_ret_value;
 #define L 13
 static char G_from[L], G_to[L], G_raw[2] = "r";
@@ -49,7 +51,17 @@ ssize_t read(int fd, void *b, size_t n) { return 0; }
 ssize_t write(int fd, const void *b, size_t n) { return (ssize_t)n; }
 int close(int fd) { return 0; }
 int debug_perror_with_src(const char *a, const char *b, int c, const char *d, const char *e) { return 0; }
-int do_rename(char *fr, char *t, int flag); int copy_file(char *from, char *to);
+int do_rename(char *fr, char *t, int flag); int copy_file(char *from, char *to); array_t *get_dir(char *path, int flags);
+/* directory model for get_dir: one entry whose name has 1 or 2 characters (2 = the scaled-down MAX_FNAME_SIZE, i.e. NAME_MAX) */
+static struct dirent G_de; static int G_reads_left; static array_t G_arr; int config_int[NUM_CONFIG_INTS];
+DIR *opendir(const char *p) { V_DECL(int, dir_ok); G_reads_left = 1; return dir_ok ? (DIR *)&G_de : (DIR *)0; }
+struct dirent *readdir(DIR *d) { if (G_reads_left > 0) { G_reads_left--; return &G_de; } return 0; }
+void rewinddir(DIR *d) { G_reads_left = 1; }
+int closedir(DIR *d) { return 0; }
+void qsort(void *b, size_t n, size_t sz, int (*cmp)(const void *, const void *)) { }
+void V_STATIC(file_utils_c, encode_stat)(svalue_t *vp, int flags, char *str, struct stat *st) { }
+int V_STATIC(file_utils_c, match_string)(char *m, char *s) { V_DECL(int, matches); return matches != 0; }
+array_t *allocate_empty_array(size_t n) { V_ASSERT(n <= 1, "at most the one entry of the directory model"); G_arr.size = (unsigned short)n; return &G_arr; }
 
 void h_path_buffers(void) {
   V_FILL(main_options_t, G_opts, opts); g_main_options = &G_opts; current_object = &G_me;
@@ -58,6 +70,14 @@ void h_path_buffers(void) {
   G_from[L - 1] = 0; G_to[L - 1] = 0;
   V_DECL(int, which);
   V_COVER(which && v_len(G_from) == 12 && G_from[11] == '/');
+  if (which == 2) {
+    V_DECL(int, flags); V_DECL(int, namelen2);
+    config_int[__MAX_ARRAY_SIZE__ - BASE_CONFIG_INT] = 100;
+    G_de.d_name[0] = 'n'; G_de.d_name[1] = namelen2 ? 'm' : 0; G_de.d_name[2] = 0;
+    (void)get_dir(G_raw, flags);
+    V_ASSERT(G_checks == 1, "the directory name was put to the master");
+    return;
+  }
   if (which) { V_DECL(int, flag); (void)do_rename(G_raw, G_raw, flag); }
   else (void)copy_file(G_raw, G_raw);
   V_ASSERT(G_checks == 2, "both names were put to the master");
